@@ -452,7 +452,11 @@ def _run(sc, S, obs):
             S.rec('user', 'init', None)
             d = dur_of(op.get('init_dur'), int(S.cur.role.split('-')[-1]) if '-' in S.cur.role else 0)
             if d:
-                sim.time_shim.sleep(d)
+                S.cur.in_hook = 'init'
+                try:
+                    sim.time_shim.sleep(d)
+                finally:
+                    S.cur.in_hook = None
             if fail.get('init') is not None and (fail['init'] == 'all' or fail['init'] == S.cur.role):
                 e = _mk_exc(fail.get('exc', 'ValueError'), -2, now_op[0])
                 excs_raised.append(dict(exc_info(e), opi=now_op[0]))
@@ -468,7 +472,11 @@ def _run(sc, S, obs):
             S.rec('user', 'exit', None)
             d = dur_of(op.get('exit_dur'), int(S.cur.role.split('-')[-1]) if '-' in S.cur.role else 0)
             if d:
-                sim.time_shim.sleep(d)
+                S.cur.in_hook = 'exit'
+                try:
+                    sim.time_shim.sleep(d)
+                finally:
+                    S.cur.in_hook = None
             if fail.get('exit') is not None and (fail['exit'] == 'all' or fail['exit'] == S.cur.role):
                 e = _mk_exc(fail.get('exc', 'ValueError'), -3, now_op[0])
                 excs_raised.append(dict(exc_info(e), opi=now_op[0]))
@@ -770,15 +778,19 @@ def _victim_phase(S, st):
     """what the victim did last: 'in_user', 'apply_pill_taken' / 'apply_task_taken' (dequeued, job not announced yet), 'idle', ..."""
     if getattr(st, 'in_user', 0):
         return 'in_user'
+    if getattr(st, 'in_hook', None):
+        return st.in_hook + '_announced'
     for ev in reversed(S.trace):
         if ev[0] < getattr(st, 'start_step', 0):
             break
         if ev[2] != st.role:
             continue
         if ev[3] == 'array.set' and ev[4] == 'working_on_job':
-            return 'job_announced'
-        if ev[3] == 'user':
+            return 'init_announced' if ev[6] == -2 else 'exit_announced' if ev[6] == -3 else 'job_announced'
+        if ev[3] == 'user' and ev[4] == 'task':
             return 'after_user'
+        if ev[3] == 'user':
+            return ev[4] + '_ran'       # inside or just after worker_init / worker_exit
         if ev[3] == 'q.put' and ev[4] == 'rq':
             return 'results_sent'
         if ev[3] == 'q.get' and isinstance(ev[4], str) and ev[4].startswith('tq['):
